@@ -251,6 +251,11 @@ def sliceOf {α} : List α → Option (List α)
   | [] => none
   | xs => some xs
 
+/-- `v, ok := m[k]; if ok { x = v }` with `x interface{}`: a JSON `null` is the nil interface, like an absent key -/
+def nullAsNil : Option Json → Option Json
+  | some .null => none
+  | o => o
+
 /-- mcp_tools.go `parseCallToolResult` -/
 def parseResult (j : Json) : Except Err CallToolResult :=
   match asMapTarget j with
@@ -261,10 +266,7 @@ def parseResult (j : Json) : Except Err CallToolResult :=
     let isError := match lookup m t!"isError" with
       | some (.bool b) => b
       | _ => false
-    let structured := match lookup m t!"structuredContent" with
-      | some .null => none
-      | some v => some v
-      | none => none
+    let structured := nullAsNil (lookup m t!"structuredContent")
     match lookup m t!"content" with
     | none => .error .contentMissing
     | some .null => .ok ⟨metaMap, none, structured, isError⟩
@@ -415,5 +417,29 @@ def parseListTools (schemaBad : Json → Bool) (j : Json) : Except Err (List Too
   | .typeError => .error .notObject
   | .nilMap => .ok ([], [])
   | .map m => .ok (parseTools schemaBad ((extractArray m t!"tools").getD []), extractString m t!"nextCursor")
+
+/-! ## a handler's Go error -/
+
+/-- which request: decides the server-side wrapping and the client-side prefix -/
+inductive Path where
+  | tool (name : Text)
+  | prompt
+  | resource
+
+/-- the JSON-RPC error message the manager builds (`ErrCodeInternal`): manager_tools.go `handleCallTool` wraps,
+    manager_prompt.go `handleGetPrompt` and manager_resource.go `handleReadResource` pass `err.Error()` on -/
+def serverErrorMessage : Path → Text → Text
+  | .tool name, msg => t!"tool execution failed (tool: " ++ name ++ t!"): " ++ msg
+  | .prompt, msg => msg
+  | .resource, msg => msg
+
+def clientPrefix : Path → Text
+  | .tool _ => t!"tool call error: "
+  | .prompt => t!"get prompt error: "
+  | .resource => t!"read resource error: "
+
+/-- client.go `CallTool` / `GetPrompt` / `ReadResource`: `fmt.Errorf("… error: %s (code: %d)", message, code)` -/
+def clientErrorText (p : Path) (msg : Text) : Text :=
+  clientPrefix p ++ serverErrorMessage p msg ++ t!" (code: " ++ intText (-32603) ++ t!")"
 
 end Mcp.Content
